@@ -1434,6 +1434,11 @@ func (c *Ctx) runStructWalk(walker *ssa.Function) {
 							if s, ok := core.ConstString(rv); ok && s == "" {
 								continue
 							}
+							// the helper reads the name off the struct field it was handed
+							if f := sfOf(rv); f != "" {
+								nameSrc["field:"+f] = true
+								continue
+							}
 							// the helper hands back the name it was given (no override in the tag): what the call site passed
 							if prm, ok := rv.(*ssa.Parameter); ok && prm.Parent() == h {
 								for i, q := range h.Params {
